@@ -44,6 +44,8 @@ QSETS = {
 # ----------------------------------------------------------------------- setup
 
 def prepare(tier):
+    import warnings
+    warnings.filterwarnings("ignore")
     import sasmodels  # noqa: F401
     from sasmodels import core, details, direct_model, generate, kernel, kerneldll, weights  # noqa: F401
     root = scratch_root()
